@@ -12,6 +12,7 @@ def build(seed):
     ops = []
     t = 0
     n = rnd.randint(1, 5)
+    restore_after = []
     # histories with their own ignore patterns, with matching files in the tree
     pats = rnd.sample(["*.tmp", "*.bak", "keep.bak", "tmp", "data.*", "*.mov", "d?e.txt"], rnd.randint(1, 2)) if rnd.random() < 0.4 else []
     if pats and rnd.random() < 0.6:
@@ -33,13 +34,23 @@ def build(seed):
         files = sorted(fs.files)
         if r < 0.3 and files:  # a failed generation follows
             p = rnd.choice(files)
+            orig = fs.files[p]
             fs.files[p] = fs.files[p] + "!"
             ops.append({"op": "write", "path": p, "data": gen.enc(fs.files[p])})
+            if rnd.random() < 0.4 and i + 1 < n:
+                # ... and the file is put back afterwards (the generation after the failed one adds a format)
+                restore_after.append((len(ops), p, orig))
         elif r < 0.45:
             p = rnd.choice(["late1.txt", "late2.txt", "s/late3.txt"])
             if p not in fs.files and p.split("/")[0] not in fs.files:
                 fs.files[p] = "late " + p
                 ops.append({"op": "write", "path": p, "data": "late " + p})
+    # restores: after the create that follows the damage
+    for pos, p, orig in reversed(restore_after):
+        nxt = next((k for k in range(pos, len(ops)) if ops[k]["op"] == "create"), None)
+        if nxt is not None:
+            ops.insert(nxt + 1, {"op": "write", "path": p, "data": gen.enc(orig)})
+            fs.files[p] = orig
     if rnd.random() < 0.25 and len(fs.files) > 1:
         lost = rnd.choice(sorted(fs.files))
         del fs.files[lost]
@@ -141,6 +152,10 @@ def _tree_matches(sc, res, st):
 
 def run(ctx):
     scs = [build(ctx.seed * 1000403 + i) for i in range(ctx.scale(120, 2000))]
+    # packing lists whose number of records sits on round numbers (writers that batch their output)
+    for n in (127, 128, 129, 256):
+        t = {"f%03d.bin" % i: "content %d" % i for i in range(n)}
+        scs.insert(0, {"profile": "c18-count", "impl_only": True, "root": "root", "tree": t, "ops": [{"op": "create", "at": "", "h": ["md5"], "now": "2026-03-01 12:00:01"}, {"op": "flatten", "at": ""}, {"op": "verifypl", "at": ""}]})
     return _scn.run_scn(ctx, scs, monitor, extra_fails=largefiles.extra(ctx), assumptions=["histories without nested child histories and without renames (the property's domain)"])
 
 
